@@ -25,7 +25,7 @@ func wireStructs(p *Prog) []*types.Named {
 			continue
 		}
 		nt, ok := tn.Type().(*types.Named)
-		if !ok || !strings.HasPrefix(n, "raw") {
+		if !ok || tn.Exported() {
 			continue
 		}
 		st, ok := nt.Underlying().(*types.Struct)
